@@ -4,7 +4,6 @@
 package server
 
 import (
-	"strconv"
 	"time"
 )
 
@@ -49,47 +48,6 @@ func ZZ_C08_PolicyEveryDatagram() {
 	}
 	verifAssert(len(io.conns) <= 1, "one socket per session")
 	verifCover("done")
-}
-
-// The same with the decision cache full (256 real entries) when a new
-// destination arrives: whichever entry is evicted - including the verdict of a
-// destination used before - later datagrams are still judged by the policy.
-//
-//verif:harness kind=api unwind=600 preempt=0 bound=cache-full(256),every-eviction-victim(first-overflow),4-datagrams-after-fill,3-destinations
-func ZZ_C08_PolicyCacheFull() {
-	io := &zzUDPIO{allow: map[string]bool{}}
-	io.allow["d0:53"] = true
-	io.allow["d1:53"] = verifBool("allow1")
-	m := newUDPSessionManager(io, &zzUDPLog{}, time.Minute)
-	m.feed(zzDgram(7, "d0:53", 0))
-	e := m.m[7]
-	for i := 0; len(e.aclCache) < maxSessionACLCache; i++ {
-		k := "f" + strconv.Itoa(i) + ":1"
-		io.allow[k] = true
-		e.aclCache[k] = nil
-	}
-	c := io.conns[0]
-	io.allow["d2:53"] = verifBool("allow2")
-	// a new destination arrives at the full cache (any eviction victim) ...
-	m.feed(zzDgram(7, "d1:53", 1))
-	n := len(c.writes)
-	verifAssert((n == 2) == io.allow["d1:53"], "a new destination is judged by the policy even when the cache is full")
-	// ... and whatever the cache did about it (evict one, evict many), every later
-	// datagram is still judged by the policy
-	verifMapOrder(false)
-	for s := 0; s < 3; s++ {
-		d := zzDests[verifChoice("dest", len(zzDests))]
-		before := len(c.writes)
-		m.feed(zzDgram(7, d, byte(2+s)))
-		if len(c.writes) > before {
-			verifAssert(len(c.writes) == before+1 && c.writes[before] == d, "a datagram goes to the destination it names")
-			verifAssert(io.allow[d], "after the cache overflowed a datagram is still forwarded only to a destination the policy allows")
-		} else {
-			verifAssert(!io.allow[d], "an allowed destination stays deliverable after eviction")
-		}
-	}
-	verifAssert(len(e.aclCache) <= maxSessionACLCache, "the cache stays within its cap")
-	verifCover("evicted")
 }
 
 // With a request hook that rewrites the session's destination, every datagram
